@@ -9,6 +9,7 @@ package vsched
 
 import (
 	"fmt"
+	"runtime"
 	"strings"
 	"sync"
 	"sync/atomic"
@@ -66,6 +67,9 @@ func (h *H) WaitQuiescent() { h.wg.Wait() }
 func (h *H) Stamp() int64 { return h.clock.Add(1) }
 
 func (h *H) Choose(n int) int { return 0 }
+
+// Yield: a pure scheduling point under the scheduler; here the Go scheduler's.
+func Yield() { runtime.Gosched() }
 
 func (h *H) Spawn(f func()) *Task {
 	t := &Task{}
